@@ -28,7 +28,7 @@ def run_config(run, cfg, seed, tag):
         if t == 0:
             run.ok(kind="first-call")
             stored = [e for e in log if e[0] == "storage.update"]
-            if [e for e in log if e[0] in ("model", "loss")] or ret != {} or len(stored) != 1:
+            if [e for e in log if e[0] in ("model", "loss")] or ret != {} or (sc.storage is not None and len(stored) != 1):
                 run.violation("first-observation", f"{tag}: first call must only seed the storage; log={log!r} ret={ret!r}", replay)
             continue
         n_used = kw.get("n_inner_samples") or cfg["n_inner"]
